@@ -260,7 +260,8 @@ theorem schedule_eq (e : Exec) (pk : Bool) :
           if e.threads.threads.all Thread.isTerminated then
             .ok ({ e with path := p2, threads := { e.threads with active := none } }, true)
           else .error .deadlock
-        | .ok (p2, some nid) => e.finish p2 p1.pos nid := by
+        | .ok (p2, some nid) =>
+          if nid ≥ e.threads.threads.length then .error (.internal 31) else e.finish p2 p1.pos nid := by
   unfold schedule
   by_cases ha : e.threads.isActive = true
   · simp only [ha, Bool.not_true, Bool.false_eq_true, if_false]
@@ -280,6 +281,9 @@ theorem schedule_eq (e : Exec) (pk : Bool) :
           split <;> rfl
         | some nid =>
           simp only
+          by_cases hn : nid ≥ e.threads.threads.length
+          · simp only [hn, if_true]; rfl
+          simp only [hn, if_false]
           unfold finish finishOp reactivate
           simp only [bind, Except.bind, pure, Except.pure]
           generalize (Threads.get _ nid).operation = o
